@@ -5,8 +5,17 @@
    ----------------------------------------------------------------------------------------------
    holds exactly the bytes of the reference byte string
    after the same operations, same answers for length /
-   comparison / search / prefix / suffix queries          -> string_refines_values (all 66 operations,
-                                                             all histories; results and values; since round 3 also
+   comparison / search / prefix / suffix queries          -> string_refines_values (all 67 operations,
+                                                             all histories; results and values; round 5: OPrependOwn,
+                                                             the calls without a defaulted argument OTrimD / OSubstrD /
+                                                             OSplitD / OSplitSetD as instances of OTrim / OSubstr / OSplit /
+                                                             OSplitSet; find(str, start) as in a reference byte string:
+                                                             empty_needle_found_up_to_length, nothing_else_at_length);
+                                                             string_refines_as_seen = the same with the results the
+                                                             property text does not speak about (toBool, the character
+                                                             classifiers) blanked out by StrSpec.seen: that is what the
+                                                             property oracle enforces, the exact statement is what model
+                                                             and implementation are compared on; since round 3 also
                                                              operator+= / operator+ with a String, a char, a literal,
                                                              d = v + u, fromBool, fromCString, toBool, the static
                                                              find(in, str) / findOneOf(in, chars) and the static char
@@ -23,8 +32,13 @@
                                                              model side and the guarded, re-read foreign memory of the
                                                              harness (M=ok) on the code side.
    including when an argument is the String itself         -> self_args_as_if_copied (String arguments) + the cases
-                                                             OAppendOwn / OPrintfSelf (a const char pointer INTO the own
-                                                             text handed to append / printf) inside string_refines_values
+                                                             OAppendOwn / OPrependOwn / OPrintfSelf (a const char pointer
+                                                             INTO the own text handed to append / prepend / printf) inside
+                                                             string_refines_values.  attach(p, n) is different: it makes
+                                                             the String a non-owning view of memory the CALLER keeps alive;
+                                                             the String's own block is released by attach itself, so the
+                                                             attached range must not lie inside it (precondition: OAttach
+                                                             takes a foreign buffer, StrSpec.v header)
    lazy-copy bookkeeping (ref = number of handles, no
    handle to a freed block, everything freed at the end)   -> heap_invariant
    case mapping through the tables of String.cpp           -> case_tables_are_ascii, char_functions_match_tables (for
@@ -55,6 +69,29 @@ Theorem string_refines_values : forall ops,
   end.
 Proof. exact string_refines_values_thm. Qed.
 Print Assumptions string_refines_values.
+
+Theorem string_refines_as_seen : forall ops,
+  match spec_run sinit ops with
+  | Some (s, outs) => exists w outs', run winit ops = Ok (w, outs') /\
+                        seen_run sinit ops outs' = seen_run sinit ops outs /\ abs w = s /\ Inv w
+  | None => run winit ops = Err BadArg
+  end.
+Proof. exact string_refines_as_seen_thm. Qed.
+Print Assumptions string_refines_as_seen.
+
+(* search from a start position, as in a reference byte string: the empty needle is found at every start up to and
+   including length(); nothing else is found at length(); nothing at all behind it *)
+Theorem empty_needle_found_up_to_length : forall l start,
+  find_from (P_sub []) l start = (if (start <=? length l)%nat then Z.of_nat start else (-1)%Z).
+Proof. exact empty_needle_found_up_to_length_thm. Qed.
+Print Assumptions empty_needle_found_up_to_length.
+
+Theorem nothing_else_at_length : forall l,
+  (forall x needle, find_from (P_sub (x :: needle)) l (length l) = (-1)%Z) /\
+  (forall c, find_from (P_chr c) l (length l) = (-1)%Z) /\
+  (forall cs, find_from (P_any cs) l (length l) = (-1)%Z).
+Proof. exact nothing_else_at_length_thm. Qed.
+Print Assumptions nothing_else_at_length.
 
 Theorem run_memory_safe : forall ops e, run winit ops = Err e -> e = BadArg.
 Proof. exact run_memory_safe_thm. Qed.
@@ -250,3 +287,31 @@ Example plus_instance :
   exists w hv, run winit [OBuf [97]%Z; OCopy 0] = Ok (w, [RNone; RNone]) /\ nth_error (vars w) 0 = Some hv /\
     exists w' h', plus w 0 0 = Ok w' /\ vars w' = vars w ++ [h'] /\ h' = HBlock 1 /\ live_blocks w' = 2.
 Proof. vm_compute. eexists _, _. split; [reflexivity|]. split; [reflexivity|]. eexists _, _. split; [reflexivity|]. split; [reflexivity|]. split; reflexivity. Qed.
+
+(* round 5: a pointer into the own text handed to prepend (owned and shared block, unterminated view, literal); the
+   calls without a defaulted argument; find(str, start) at start = length() *)
+Definition demo5 : list op :=
+  [OBuf [104;105;32;121;111]%Z; OPrependOwn 0 3 2; OCopy 0; OPrependOwn 1 0 1; OReg [120;121;122;33]%Z; ONew;
+   OAttach 2 0 0 3; OPrependOwn 2 1 2; OLit [97;98]%Z; OPrependOwn 3 0 2;
+   OBuf [13;11;32;120;32;12;9]%Z; OTrimD 4; OSubstrD 0 (-2); OSplitD 4 [32]%Z; OSplitSetD 4 [32]%Z;
+   OFindSFrom 3 [] 4; OFindSFrom 3 [] 5; OFindSFrom 3 [98]%Z 4; OFindCFrom 3 98%Z 4; OFindOneOfFrom 3 [] 4; ONew; OFindSFrom 6 [] 0].
+
+Example demo5_in_domain :
+  exists s outs, spec_run sinit demo5 = Some (s, outs) /\
+    svals s = [[121;111;104;105;32;121;111]; [121;121;111;104;105;32;121;111]; [121;122;120;121;122]; [97;98;97;98];
+               [120;32;12]; [121;111]; []]%Z /\
+    nth 13 outs RNone = RList [[120]; [12]]%Z /\ nth 14 outs RNone = RList [[12]; [120]]%Z /\
+    nth 15 outs RNone = RInt 4%Z /\ nth 16 outs RNone = RInt (-1)%Z /\ nth 17 outs RNone = RInt (-1)%Z /\
+    nth 18 outs RNone = RInt (-1)%Z /\ nth 19 outs RNone = RInt (-1)%Z /\ nth 21 outs RNone = RInt 0%Z.
+Proof. vm_compute. eexists _, _. split; [reflexivity|]. split; [reflexivity|]. split; [reflexivity|]. split; [reflexivity|].
+  split; [reflexivity|]. split; [reflexivity|]. split; [reflexivity|]. split; [reflexivity|]. split; reflexivity. Qed.
+
+Example demo5_model_agrees :
+  exists w outs, run winit demo5 = Ok (w, outs) /\ Some (abs w, outs) = spec_run sinit demo5 /\ length (vars w) = 7.
+Proof. vm_compute. eexists _, _. split; [reflexivity|]. split; reflexivity. Qed.
+
+(* what the property-level reading leaves open: the answer of toBool and of a classifier; not: a case map, a search *)
+Example seen_instance :
+  seen sinit (OToBool 0) (RInt 1%Z) = None /\ seen sinit (OChar CIsSpace 32%Z) (RInt 1%Z) = None /\
+  seen sinit (OChar CLower 65%Z) (RInt 97%Z) = Some (RInt 97%Z) /\ seen sinit (OFindSFrom 0 [] 0) (RInt 0%Z) = Some (RInt 0%Z).
+Proof. vm_compute. split; [reflexivity|]. split; [reflexivity|]. split; reflexivity. Qed.
